@@ -152,8 +152,18 @@ func (ssc *defaultStatefulSetControl) ListRevisions(set *apps.StatefulSet) ([]*k
 		return nil, err
 	}
 	res := []*kubeapps.ControllerRevision{}
+	// a revision that carries both the selector labels and the upgrade marker is returned by both lists
+	listed := map[string]bool{}
 	for _, item := range append(revisions.Items, revisinsToUpgrade.Items...) {
 		local := item
+		if listed[local.Name] {
+			continue
+		}
+		listed[local.Name] = true
+		// a revision controlled by somebody else is not part of set's history
+		if ref := metav1.GetControllerOfNoCopy(&local); ref != nil && ref.UID != set.UID {
+			continue
+		}
 		res = append(res, &local)
 	}
 	return res, nil
